@@ -83,9 +83,11 @@ func genToken(t *rapid.T) string {
 	case 2:
 		return "change-me"
 	case 3:
-		return rapid.SampledFrom([]string{"a", "Bearer", "Bearer x", "x y", " lead", "tok,en", "t=k/+==", "ключ", "a  b", "0"}).Draw(t, "tokodd")
+		return rapid.SampledFrom([]string{"a", "Bearer", "Bearer x", "x y", " lead", "tok,en", "t=k/+==", "ключ", "a  b", "0",
+			// characters that mean something to a shell, a template, a format string or a pattern - a token is none of these
+			"$uperSecretAdm1nT0ken", "s3cr3t$Pepper2024", "${HELIOS_ADMIN_TOKEN}", "$HOME", "pa$$word", "a$1b", "100%sure", "%41dmin", "{{token}}", "t\\n", "a*b?c[d]", "^tok$", "tok#en", "\"quoted\"", "'single'", "a&b|c;d", "<tok>", "~tok", "`id`", "t!k@n"}).Draw(t, "tokodd")
 	}
-	s := rapid.StringOfN(rapid.RuneFrom([]rune("abcdefXYZ0123456789-_.~+/= :,é")), 1, 64, -1).Draw(t, "tok")
+	s := rapid.StringOfN(rapid.RuneFrom([]rune("abcdefXYZ0123456789-_.~+/= :,é$%{}()[]*?^#&|;<>!@'`\"\\")), 1, 64, -1).Draw(t, "tok")
 	s = strings.TrimRight(s, " ")
 	if s == "" {
 		s = "t"
